@@ -305,12 +305,20 @@ def check_used_set(ctx, rule="C13.U"):
     if fn is None:
         raise AnalysisError("_get_unused_physical_qubit not found")
     ctx.fn("Executor._get_unused_physical_qubit")
-    ok = False
-    for r in A.returns(fn):
-        if isinstance(r.value, ast.Name):
-            tests = G.path_conditions(fn, r)
-            ok = any((not pol) and isinstance(t, ast.Compare) and isinstance(t.ops[0], ast.In) and A.norm(t.left) == r.value.id and A.is_self_attr(t.comparators[0], USED) for t, pol in tests)
-    ctx.check(rule, "_get_unused_physical_qubit:returns-address-not-in-used-set", ok, "the returned physical address is not tested to be outside the used set", repo.loc(m, fn))
+    # executed abstractly (nqsa/circuit.py) for several in-use sets: the address handed out is outside the set (and ends up in it)
+    from .. import circuit as C
+    ok, detail = True, ""
+    try:
+        for used in ((), (0,), (1, 2), (0, 1, 3), (0, 1, 2), (2, 0, 5)):
+            o = C.object_from_init(repo, ex, {USED: set(used)})
+            got = C.Interp(repo, ctx.ev, C.Scenario(), None).call_function(m, fn, [], {}, self_obj=o)
+            if not isinstance(got, int) or got in used or got < 0:
+                ok = False
+                detail = f"with {sorted(used)} in use it hands out {got!r}"
+    except (AnalysisError, C.EvalRaise) as ex_:
+        ctx.error(rule, f"Executor._get_unused_physical_qubit cannot be evaluated: {ex_}")
+    ctx.check(rule, "_get_unused_physical_qubit:returns-address-not-in-used-set", ok,
+              f"the physical address handed out is not always outside the in-use set ({detail}): two virtual qubits end up on one physical qubit", repo.loc(m, fn))
     # dropping a module: every non-None entry removed
     cq = ex.methods.get("_clear_qubits")
     if cq is None:
